@@ -112,6 +112,9 @@ type Access struct {
 	Write bool
 	Locks lockset
 	What  string
+	// Foreign: a Conn field reached through a *Conn taken from the registry (Conns, ConnByUUID,
+	// the map itself), i.e. possibly another goroutine's connection
+	Foreign bool
 }
 
 type syncModel struct {
@@ -126,7 +129,94 @@ type syncModel struct {
 
 var sharedStructs = map[string]bool{"redis.Server": true, "redis.ServerConfig": true, "redis.Config": true, "redis.ConnManager": true, "auth.AuthManager": true, "redis.Conn": true}
 
+// extendSharedStructs: a struct of the framework whose instances are kept in a field (or in a
+// slice/map held by a field, or behind a framework interface kept there) of a shared struct is
+// shared as well: the authenticators registered in the AuthManager's list, for instance, are
+// used by every connection goroutine.
+func extendSharedStructs(p *Program) {
+	byName := map[string]*types.Named{}
+	var ifaceImpls func(it *types.Interface) []*types.Named
+	var all []*types.Named
+	for path, sp := range p.SSAPkgs {
+		if !pkgHasPrefix(path, pkgRedis) || pkgHasPrefix(path, pkgProto) {
+			continue
+		}
+		for _, mem := range sp.Members {
+			if t, ok := mem.(*ssa.Type); ok {
+				if n, ok := t.Type().(*types.Named); ok {
+					if _, isSt := n.Underlying().(*types.Struct); isSt {
+						byName[typeName(n)] = n
+						all = append(all, n)
+					}
+				}
+			}
+		}
+	}
+	ifaceImpls = func(it *types.Interface) []*types.Named {
+		var out []*types.Named
+		if it.NumMethods() == 0 {
+			return nil
+		}
+		for _, n := range all {
+			if types.Implements(types.NewPointer(n), it) || types.Implements(n, it) {
+				out = append(out, n)
+			}
+		}
+		return out
+	}
+	var reach func(t types.Type, d int) []*types.Named
+	reach = func(t types.Type, d int) []*types.Named {
+		if d > 3 {
+			return nil
+		}
+		switch x := t.(type) {
+		case *types.Pointer:
+			return reach(x.Elem(), d+1)
+		case *types.Slice:
+			return reach(x.Elem(), d+1)
+		case *types.Array:
+			return reach(x.Elem(), d+1)
+		case *types.Map:
+			return append(reach(x.Key(), d+1), reach(x.Elem(), d+1)...)
+		case *types.Named:
+			if _, isSt := x.Underlying().(*types.Struct); isSt {
+				if byName[typeName(x)] != nil {
+					return []*types.Named{x}
+				}
+				return nil
+			}
+			if it, isI := x.Underlying().(*types.Interface); isI && x.Obj().Pkg() != nil && pkgHasPrefix(x.Obj().Pkg().Path(), pkgRedis) {
+				// handler interfaces are implemented by the application (and by Server itself): not followed
+				if strings.HasSuffix(x.Obj().Name(), "Handler") || strings.HasSuffix(x.Obj().Name(), "Executor") {
+					return nil
+				}
+				return ifaceImpls(it)
+			}
+		}
+		return nil
+	}
+	for changed := true; changed; {
+		changed = false
+		for name := range sharedStructs {
+			n := byName[name]
+			if n == nil {
+				continue
+			}
+			st := n.Underlying().(*types.Struct)
+			for i := 0; i < st.NumFields(); i++ {
+				for _, r := range reach(st.Field(i).Type(), 0) {
+					if !sharedStructs[typeName(r)] {
+						sharedStructs[typeName(r)] = true
+						changed = true
+					}
+				}
+			}
+		}
+	}
+}
+
 func buildSyncModel(c *Ctx) *syncModel {
+	extendSharedStructs(c.P)
 	m := &syncModel{p: c.P, locks: &lockTable{idx: map[string]int{}}, lockAt: map[ssa.Instruction]lockset{}, order: map[[2]int]string{}}
 	for _, fn := range c.P.RepoFuncs(pkgRedis) {
 		m.funcs = append(m.funcs, fn)
@@ -310,8 +400,9 @@ func functionValueUsed(p *Program, fn *ssa.Function) bool {
 }
 
 func (m *syncModel) collectAccesses() {
+	var curForeign bool
 	add := func(fn *ssa.Function, ins ssa.Instruction, field string, write bool, what string) {
-		m.accesses = append(m.accesses, Access{Fn: fn, Ins: ins, Field: field, Write: write, Locks: m.lockAt[ins], What: what})
+		m.accesses = append(m.accesses, Access{Fn: fn, Ins: ins, Field: field, Write: write, Locks: m.lockAt[ins], What: what, Foreign: curForeign})
 	}
 	for _, fn := range m.funcs {
 		allInstrs(fn, func(ins ssa.Instruction) {
@@ -337,6 +428,7 @@ func (m *syncModel) collectAccesses() {
 			if fa.Referrers() == nil {
 				return
 			}
+			curForeign = owner == "redis.Conn" && m.fromRegistry(fa.X, 0, map[ssa.Value]bool{})
 			for _, r := range *fa.Referrers() {
 				switch x := r.(type) {
 				case *ssa.Store:
@@ -509,7 +601,7 @@ func runC14(c *Ctx) {
 						if !(r1.Goroutine || r2.Goroutine) {
 							continue
 						}
-						if isConn && r1.Goroutine && r2.Goroutine {
+						if isConn && r1.Goroutine && r2.Goroutine && !w.Foreign && !x.Foreign {
 							continue // each connection goroutine touches its own Conn
 						}
 						conc = true
@@ -1110,4 +1202,81 @@ func ruleStopClosesWhatIsOpen(c *Ctx, rid string) {
 	}
 	c.count("listener-close-sites", n)
 	c.floor("listener-close-sites", 2)
+}
+
+// fromRegistry: the *Conn value was obtained from the connection registry — a result of
+// ConnManager.Conns / ConnByUUID, an element of the registry map, or a parameter that some
+// static caller binds to such a value (a Conn method called on a connection of the snapshot).
+func (m *syncModel) fromRegistry(v ssa.Value, depth int, seen map[ssa.Value]bool) bool {
+	if v == nil || depth > 9 || seen[v] {
+		return false
+	}
+	seen[v] = true
+	switch x := v.(type) {
+	case *ssa.Call:
+		n := calleeName(x.Common())
+		if strings.HasSuffix(n, "ConnManager).Conns") || strings.HasSuffix(n, "ConnManager).ConnByUUID") || strings.HasSuffix(n, "redis.Server).Conns") || strings.HasSuffix(n, "redis.Server).ConnByUUID") {
+			return true
+		}
+	case *ssa.Extract:
+		return m.fromRegistry(x.Tuple, depth+1, seen)
+	case *ssa.UnOp:
+		return m.fromRegistry(x.X, depth+1, seen)
+	case *ssa.IndexAddr:
+		return m.fromRegistry(x.X, depth+1, seen)
+	case *ssa.Index:
+		return m.fromRegistry(x.X, depth+1, seen)
+	case *ssa.Lookup:
+		if owner, f, _, ok := fieldOf(x.X); ok && owner == "redis.ConnManager" && f == "m" {
+			return true
+		}
+		return m.fromRegistry(x.X, depth+1, seen)
+	case *ssa.Next:
+		return m.fromRegistry(x.Iter, depth+1, seen)
+	case *ssa.Range:
+		if owner, f, _, ok := fieldOf(x.X); ok && owner == "redis.ConnManager" && f == "m" {
+			return true
+		}
+		return m.fromRegistry(x.X, depth+1, seen)
+	case *ssa.Phi:
+		for _, e := range x.Edges {
+			if m.fromRegistry(e, depth+1, seen) {
+				return true
+			}
+		}
+	case *ssa.Slice:
+		return m.fromRegistry(x.X, depth+1, seen)
+	case *ssa.Alloc:
+		// a local variable (captured by a closure, or address-taken): what is stored into it
+		for _, st := range allocStores(x) {
+			if m.fromRegistry(st.Val, depth+1, seen) {
+				return true
+			}
+		}
+	case *ssa.FreeVar:
+		if sv := freeVarSingleStore(x); sv != nil {
+			return m.fromRegistry(sv, depth+1, seen)
+		}
+	case *ssa.TypeAssert:
+		return m.fromRegistry(x.X, depth+1, seen)
+	case *ssa.ChangeInterface:
+		return m.fromRegistry(x.X, depth+1, seen)
+	case *ssa.MakeInterface:
+		return m.fromRegistry(x.X, depth+1, seen)
+	case *ssa.Parameter:
+		fn := x.Parent()
+		idx := -1
+		for i, q := range fn.Params {
+			if q == x {
+				idx = i
+			}
+		}
+		for _, site := range m.p.staticCallSites(fn) {
+			args := site.Common().Args
+			if idx >= 0 && idx < len(args) && m.fromRegistry(args[idx], depth+1, seen) {
+				return true
+			}
+		}
+	}
+	return false
 }
